@@ -641,11 +641,15 @@ def form_ir_sources(repo, res):
 
     def sample(nargs, part):
         V = Node("FunctionSpace", name="V")
-        args = [Node("Argument", name=f"a{i}", ufl_function_space=_PyCall(lambda: V)) for i in range(nargs)]
-        consts = [Node("Constant", name="k0", ufl_shape=()), Node("Constant", name="k1", ufl_shape=(2, 3)), Node("Constant", name="k2", ufl_shape=(2,))]
-        coefs = [Node("Coefficient", name="B"), Node("Coefficient", name="C")]
-        form = Node("Form", signature=_PyCall(lambda: "SIG"), arguments=_PyCall(lambda: list(args)), constants=_PyCall(lambda: list(consts)))
         els = [Node("Element", basix_hash=_PyCall(lambda h_=h: h_)) for h in (11, 22, 33, 44)]
+        elA = Node("Element", basix_hash=_PyCall(lambda: 99))
+        args = [Node("Argument", name=f"a{i}", ufl_function_space=_PyCall(lambda: V), ufl_element=_PyCall(lambda e_=els[i]: e_)) for i in range(nargs)]
+        consts = [Node("Constant", name="k0", ufl_shape=()), Node("Constant", name="k1", ufl_shape=(2, 3)), Node("Constant", name="k2", ufl_shape=(2,))]
+        coefs = [Node("Coefficient", name="B", ufl_element=_PyCall(lambda: els[2])), Node("Coefficient", name="C", ufl_element=_PyCall(lambda: els[3]))]
+        # the original form has a further coefficient A (first position) that preprocessing eliminated: reduced_coefficients = [B, C]
+        coefA = Node("Coefficient", name="A", ufl_element=_PyCall(lambda: elA))
+        form = Node("Form", signature=_PyCall(lambda: "SIG"), arguments=_PyCall(lambda: list(args)), constants=_PyCall(lambda: list(consts)),
+                    coefficients=_PyCall(lambda: [coefA] + list(coefs)))
         itg = [Node("IntegralData", integral_type="cell", subdomain_id=(3, "otherwise")), Node("IntegralData", integral_type="exterior_facet", subdomain_id=(7,))]
         # the preprocessed form lost a constant and an argument-independent coefficient: a plausible but wrong source for every count
         pre = Node("Form", signature=_PyCall(lambda: "SIG-PRE"), arguments=_PyCall(lambda: list(args)), constants=_PyCall(lambda: list(consts[1:])),
